@@ -411,10 +411,15 @@ def t_priorized_numbers(ctx):
     # the istart expression of the call, as a function of the enumerate index i
     i = Sym(z3.Int('i'))
     kw = {k.arg: k.value for k in call.keywords}
+    # what the loop has accumulated before batch i is only known to be a list whose length is some function of i
+    NSRC = z3.Function('components_returned_before_batch', z3.IntSort(), z3.IntSort())
+    so_far = SymList("sources", Sym(NSRC(i.e)), lambda j: Sym(z3.Int('some_source')))
+    ctx.assume(Sym(NSRC(i.e)) >= 0)
+    call_env = Env({'i': i, 'group_size': group_size, 'g': Obj('g'), 'sources': so_far, 'island_groups': Opaque('island_groups')})
     if 'istart' in kw:
-        e = it.eval(kw['istart'], Env({'i': i, 'group_size': group_size, 'g': Obj('g')}))
+        e = it.eval(kw['istart'], call_env)
     elif len(call.args) >= 4:
-        e = it.eval(call.args[3], Env({'i': i, 'group_size': group_size, 'g': Obj('g')}))
+        e = it.eval(call.args[3], call_env)
     else:
         e = 0
     if not isinstance(e, (int, Sym)):
@@ -496,7 +501,39 @@ class _Cut(PyObj):
         pass
 
 
+WFILE = "AegeanTools/wcs_helpers.py"
+
+
+def t_beamarea(ctx):
+    """int_flux = peak*a*b/(psf_a*psf_b) needs the beam area used for int_flux to be the area of the SAME pixel beam
+    (get_psf_sky2pix) that the psf_a/psf_b columns and the fit are derived from"""
+    PA, PB = sym('pixbeam_a'), sym('pixbeam_b')
+    calls = []
+    me = Obj('WCSHelper', psf_file=(None if ctx.free_branch() else 'psf.fits'), beam=Obj('Beam', a=sym('ba'), b=sym('bb'), pa=sym('bpa')),
+             _psf_a=sym('ref_a'), _psf_b=sym('ref_b'), _psf_theta=sym('ref_t'))
+    me.methods['get_psf_sky2pix'] = lambda c, s, ra, dec: (calls.append((ra, dec)), (PA, PB, sym('pixbeam_pa')))[1]
+    me.methods['sky2pix_ellipse'] = lambda c, s, pos, a, b, pa: (sym('ex'), sym('ey'), sym('other_a'), sym('other_b'), sym('et'))
+    me.methods['get_psf_sky2sky'] = lambda c, s, ra, dec: (sym('sky_a'), sym('sky_b'), sym('sky_pa'))
+    ra, dec = sym('ra'), sym('dec')
+    out = run_function(ctx, WFILE, 'WCSHelper.get_beamarea_pix', [me, ra, dec], globals_={'np': lib.std_np()})
+    if out.kind != 'return' or not isinstance(out.value, Sym):
+        ctx.oblige("post", "beamarea.returns_a_number", False)
+        return
+    ctx.oblige("post", "beamarea.is_pi_a_b_of_the_pixel_beam_at_that_position",
+               And(out.value == PA * PB * Sym(lib.PI, True), len(calls) == 1 and calls[0][0] is ra and calls[0][1] is dec))
+
+
 def verify(S):
+    # the sexagesimal strings: dec2hms / dec2dms by their C17 contracts (fields in range, sign, round trip to the printed precision)
+    from contracts import c17
+    for name, fn in (("angle_tools.dec2dms", c17.t_dec2dms), ("angle_tools.dec2hms", c17.t_dec2hms), ("angle_tools.nonfinite", c17.t_nonfinite)):
+        if S.only and S.only not in name:
+            continue
+        ctx = Ctx(S, name)
+        try:
+            ctx.explore(fn)
+        except Undecided as u:
+            S.undecided.append("%s: %s" % (name, u))
     # island rows agree with the detected pixels: the find_islands contract of C02 (own pixels, bounding box, mask)
     from contracts import c02, c05
     c02.verify(S)
@@ -510,7 +547,8 @@ def verify(S):
     targets = [("source_finder.fix_shape", t_fix_shape), ("source_finder.pa_limit", t_pa_limit),
                ("source_finder.SourceFinder.result_to_components", t_result_to_components), ("fitting.errors", t_errors),
                ("source_finder.SourceFinder.priorized_fit_islands", t_priorized_numbers),
-               ("source_finder.SourceFinder.find_sources_in_image", t_blind_numbers)]
+               ("source_finder.SourceFinder.find_sources_in_image", t_blind_numbers),
+               ("wcs_helpers.WCSHelper.get_beamarea_pix", t_beamarea)]
     for name, fn in targets:
         if S.only and S.only not in name:
             continue
